@@ -199,6 +199,12 @@ pub fn run_c07(cx: &Cx) -> PropResult {
         if drive(crate::run::tag_seed(derive_seed(cx.seed, cx.prop, shard as u64, 1), 1), &strat, per_shard / 2, acc, &|c: &EvoSuffixCase| to_json(&json!({"Evo": c})), &mut |c, a, r| check_c07_evo(c, a, r)) {
             return;
         }
+        // values of a user codec that stores its bytes as compressed blocks (write_compressed / read_compressed through
+        // the context), between ordinary values
+        let strat = blob_case_strategy();
+        if drive(crate::run::tag_seed(derive_seed(cx.seed, cx.prop, shard as u64, 5), 5), &strat, per_shard / 10, acc, &|c: &BlobCase| to_json(&json!({"Blob": c})), &mut |c, a, r| check_c07_blob(c, a, r)) {
+            return;
+        }
         let nh = crate::props::derived::batch().histories.len();
         for h in (shard..nh).step_by(cx.shards) {
             if !crate::props::derived::group_ok(&crate::props::derived::batch().histories[h]) {
@@ -213,13 +219,70 @@ pub fn run_c07(cx: &Cx) -> PropResult {
     let mut r = PropResult::new(
         acc,
         "exploration",
-        "cases = 1 value, or 2-5 values of different types written back to back into one SerializationContext, followed by a suffix (empty, one byte, bytes that look like a continuation, random up to 64 bytes). The values are decoded in order from one DeserializationContext, which is then drained with read_u8: every value must come back and the drained bytes must equal the suffix exactly. Non-trivial = non-empty suffix and an encoding of >= 2 bytes. Sequences written through the public serialize_iterator helper with exact, unbounded-inexact and bounded-inexact size hints, followed by another value and a suffix. Evolved records: the same with (history, writer version w, reader version r, value, placement) cases from run-time histories and from the compiled batch — data of version w followed by a suffix is read by version r; when the documented outcome is a value the reader must leave exactly the suffix (unknown chunks skipped in full); stored version 0 read by a definition that removed fields is outside the quantifier (counted).",
+        "cases = 1 value, or 2-5 values of different types written back to back into one SerializationContext, followed by a suffix (empty, one byte, bytes that look like a continuation, random up to 64 bytes). The values are decoded in order from one DeserializationContext, which is then drained with read_u8: every value must come back and the drained bytes must equal the suffix exactly. Non-trivial = non-empty suffix and an encoding of >= 2 bytes. Sequences written through the public serialize_iterator helper with exact, unbounded-inexact and bounded-inexact size hints, followed by another value and a suffix. Values of a user codec that stores compressed blocks (contents of 0, 1-7, 8-299 and 70 000 bytes, levels 0-9) written through the context, each followed by a marker value. Evolved records: the same with (history, writer version w, reader version r, value, placement) cases from run-time histories and from the compiled batch — data of version w followed by a suffix is read by version r; when the documented outcome is a value the reader must leave exactly the suffix (unknown chunks skipped in full); stored version 0 read by a definition that removed fields is outside the quantifier (counted).",
     );
     r.assumptions = vec!["DeserializationContext is a public BinaryInput: the unread remainder is observed without a hook".into()];
     r
 }
 
+/// compressed blocks (content length, byte seed, level) each followed by a u16 marker, then a suffix
+#[derive(Debug, Clone, Serialize, Deserialize)]
+pub struct BlobCase {
+    pub blobs: Vec<(usize, u8, u32)>,
+    pub suffix: Vec<u8>,
+}
+
+fn blob_case_strategy() -> BoxedStrategy<BlobCase> {
+    let len = prop_oneof![3 => Just(0usize), 3 => 1usize..8, 2 => 8usize..300, 1 => Just(70_000usize)];
+    (proptest::collection::vec((len, any::<u8>(), 0u32..10), 1..4), suffix_strategy()).prop_map(|(blobs, suffix)| BlobCase { blobs, suffix }).boxed()
+}
+
+pub fn check_c07_blob(c: &BlobCase, acc: &mut Acc, record: bool) -> Verdict {
+    use crate::props::compressed::{ZBlob, ZOwned};
+    use desert::{BinaryDeserializer, BinaryInput, BinarySerializer};
+    let contents: Vec<Vec<u8>> = c.blobs.iter().map(|(n, seed, _)| (0..*n).map(|i| if seed % 3 == 0 { *seed } else { (i as u8).wrapping_mul(*seed | 1) ^ (i >> 8) as u8 }).collect()).collect();
+    let mut ctx = desert::SerializationContext::new(Vec::new());
+    for (i, d) in contents.iter().enumerate() {
+        if let Err(e) = ZBlob(d, flate2::Compression::new(c.blobs[i].2)).serialize(&mut ctx).and_then(|_| BinarySerializer::serialize(&(0xBE00u16 + i as u16), &mut ctx)) {
+            return Verdict::Fail(format!("writing a compressed block failed: {e:?}"));
+        }
+    }
+    let mut bytes = ctx.into_output();
+    let encoded = bytes.len();
+    bytes.extend_from_slice(&c.suffix);
+    if record {
+        let class = format!("compressed blocks between values: {}", if contents.iter().any(|d| d.is_empty()) { "with an empty block" } else { "non-empty blocks" });
+        acc.case(&class, hash_json(c), !c.suffix.is_empty() || contents.len() > 1);
+        if acc.wants_sample(&class) {
+            acc.sample(&class, json!({"content_lengths": contents.iter().map(|d| d.len()).collect::<Vec<_>>(), "levels": c.blobs.iter().map(|b| b.2).collect::<Vec<_>>(), "encoded_bytes": encoded, "suffix_bytes": c.suffix.len()}));
+        }
+    }
+    let mut dc = desert::DeserializationContext::new(&bytes);
+    for (i, d) in contents.iter().enumerate() {
+        match ZOwned::deserialize(&mut dc) {
+            Ok(z) if z.0 == *d => {}
+            other => return Verdict::Fail(format!("compressed block {i} ({} bytes, level {}) read back as {:?} (stream {})", d.len(), c.blobs[i].2, other.map(|z| z.0.len()).map_err(|e| vcat::errinfo(&e).kind), hex(&bytes[..bytes.len().min(48)]))),
+        }
+        match <u16 as BinaryDeserializer>::deserialize(&mut dc) {
+            Ok(m) if m == 0xBE00 + i as u16 => {}
+            other => return Verdict::Fail(format!("the value after compressed block {i} ({} bytes, level {}) read back as {:?}: the block did not consume exactly its own frame (stream {})", d.len(), c.blobs[i].2, other.map_err(|e| vcat::errinfo(&e).kind), hex(&bytes[..bytes.len().min(48)]))),
+        }
+    }
+    let mut rest = Vec::new();
+    while let Ok(b) = dc.read_u8() {
+        rest.push(b);
+    }
+    if rest != c.suffix {
+        return Verdict::Fail(format!("after {} compressed blocks {} bytes are left instead of the {}-byte suffix", contents.len(), rest.len(), c.suffix.len()));
+    }
+    Verdict::Pass
+}
+
 pub fn replay_c07(case: &Value) -> Verdict {
+    if let Some(e) = case.get("Blob") {
+        let c: BlobCase = serde_json::from_value(e.clone()).expect("replay case");
+        return check_c07_blob(&c, &mut Acc::new(), false);
+    }
     if let Some(e) = case.get("Evo") {
         let c: EvoSuffixCase = serde_json::from_value(e.clone()).expect("replay case");
         return check_c07_evo(&c, &mut Acc::new(), false);
@@ -529,9 +592,9 @@ pub fn cont_case_strategy() -> BoxedStrategy<ContCase> {
         })
         .prop_map(|(k, v, xs, src, dst, form)| ContCase { elem: k, elem2: Some(v), xs, src, dst, form });
     // (4) byte containers among themselves
-    let bytes = (prop::sample::select(vec![Cont::Vec, Cont::Slice, Cont::Array, Cont::Bytes, Cont::RcSlice]), prop::sample::select(vec![Cont::Vec, Cont::Array, Cont::Bytes]), prop::sample::select(vec![0usize, 1, 2, 3, 16, 17, 32, 33]), any::<bool>())
+    let bytes = (prop::sample::select(vec![Cont::Vec, Cont::Slice, Cont::Array, Cont::Bytes, Cont::RcSlice]), prop::sample::select(vec![Cont::Vec, Cont::Array, Cont::Bytes]), prop::sample::select(vmodel::gen::BYTE_ARRAY_LENS.to_vec()), any::<bool>())
         .prop_flat_map(|(s, d, n, fixed)| {
-            let len = if fixed || s == Cont::Array || d == Cont::Array { (n..=n).boxed() } else { (0usize..70).boxed() };
+            let len = if fixed || s == Cont::Array || d == Cont::Array { (n..=n).boxed() } else { prop_oneof![4 => 0usize..70, 1 => 120usize..300].boxed() };
             (Just(s), Just(d), len.prop_flat_map(|l| proptest::collection::vec(any::<u8>(), l..=l)))
         })
         .prop_map(|(src, dst, b)| ContCase { elem: Ty::U8, elem2: None, xs: Val::Bytes(b), src, dst, form: Form::Known });
